@@ -30,7 +30,7 @@ RULE = ("2 of 3 runs: 1-12 ACN-Data documents (instants incl. DST transitions, s
         "period, #docs, capped?)")
 PROBES = ["via_generate_events", "acndata_path", "stochastic_path", "stay_crosses_dst", "max_len_capped", "force_feasible_capped", "fit_used",
           "fit_closed_form_branch", "fit_search_branch", "naive_start", "host_tz_non_utc", "fit_infeasible_inconclusive",
-          "departure_eq_arrival", "request_below_half_deliverable", "lenient_server_out_of_window_docs", "arrival_before_start", "integer_typed_sample_matrix", "earlier_call_with_other_battery_params", "one_battery_params_dict_for_two_conversions"]
+          "departure_eq_arrival", "request_below_half_deliverable", "lenient_server_out_of_window_docs", "arrival_before_start", "integer_typed_sample_matrix", "earlier_call_with_other_battery_params", "one_battery_params_dict_for_two_conversions", "zero_energy_document", "claimed_session_with_user_inputs"]
 FAULT_DIMENSION = "host time zone changes (S6); server paging as in C20; lenient server returning documents outside the requested window"
 REAL_VS_STUB = ("real: acndata_events.get_evs/_convert_to_ev, DataClient, acndata.utils, StochasticEvents.generate_events/"
                 "_convert_ev_matrix, batt_cap_fn, EV, Battery, Linear2StageBattery; stub: requests -> fake server; "
@@ -109,6 +109,21 @@ def gen(rs, tier):
         docs.append({"_id": "d%d" % i, "connectionTime": e, "disconnectTime": e + stay_s, "doneChargingTime": None,
                      "kWhDelivered": max(0.01, round(kwh, 6)), "sessionID": "sess_%d" % i, "spaceID": "CA-%d" % (300 + i),
                      "timezone": r.choice(ZONES), "note": ""})
+    rcl = sub(rs, "claimed")
+    for d in docs:
+        # sessions claimed through the mobile app carry the driver's inputs (unclaimed ones carry null); the energy of a session is
+        # what was DELIVERED, also when that is nothing at all
+        u_ = rcl.random()
+        if u_ < 0.35:
+            d["userInputs"] = None
+        elif u_ < 0.75:
+            d["userInputs"] = [{"userID": rcl.randint(1, 999), "kWhRequested": round(rcl.uniform(2, 40), 2), "milesRequested": rcl.randint(5, 120),
+                                "WhPerMile": rcl.choice([250, 350, 400]), "minutesAvailable": rcl.randint(20, 600), "paymentRequired": True}
+                               for _ in range(rcl.choice([1, 1, 2]))]
+            d["userID"] = "%06d" % d["userInputs"][-1]["userID"]
+        if bp in ("none", "ideal_kwargs") and rcl.random() < 0.08:
+            d["kWhDelivered"] = rcl.choice([0, 0.0])
+            common["zero_energy_doc"] = True
     if r.random() < 0.2:
         # server-side fault: the where-clause is not applied (lenient / clock-skewed server): documents that connected
         # before the simulation start reach the converter and must still get floor-index arrivals (negative ones)
@@ -278,6 +293,10 @@ def check(sc):
                             raise
                 finally:
                     dc_mod.requests = orig
+                if sc.get("zero_energy_doc"):
+                    out.probe("zero_energy_document")
+                if any(d_.get("userInputs") for d_ in sc["docs"]):
+                    out.probe("claimed_session_with_user_inputs")
                 if evs is not None:
                     sel = sorted([d for d in sc["docs"] if sc.get("lenient_server") or sc["start"] <= d["connectionTime"] <= sc["end"]],
                                  key=lambda d: d["connectionTime"])
